@@ -1056,7 +1056,7 @@ MANIFEST = {
             "generator yields strictly ascending PIDs, all listed when it started; exactly: the cached object iff the PID was cached, "
             "unmarked and its instance carries no reused flag, else an object made in that next(); end-to-end: an object yielded by "
             "an exhausted iteration is yielded again by the next iterations while the PID keeps its start ticks (no cache_clear, no "
-            "other generator finishing in between: necessity refuted otherwise); info keys = the requested names, no exception other than ValueError for an invalid name; on "
+            "other generator finishing in between: necessity refuted otherwise); info keys = the requested names (for None / empty attrs: all IMPLEMENTED names, whatever subset of attributes the system lacks, and never NotImplementedError), no exception other than TypeError / ValueError / NotImplementedError caused by the attrs argument; on "
             "exhaustion every listed PID was yielded or passed over, and whoever was passed over while in the table was cached "
             "and (marked as reused or ppid requested) -- the exact class of the known finding, never yielded (theorem for every member); after a generator finishes the cache holds exactly its entries (none for PIDs not listed), "
             "cache_clear() empties it; after is_running() found an object recycled (also mid-iteration) no generator entered later yields it, "
